@@ -961,6 +961,72 @@ func c18(c *Ctx) {
 				}
 				n++
 				terms, k := linearForm(info, ie.Index)
+				// a summand hoisted into a local with one definition (offset := int(b.Offset) + 1) counts as its definition
+				fgx := px.FG(fn)
+				for round := 0; round < 3; round++ {
+					changed := false
+					for t, coef := range terms {
+						var id *ast.Ident
+						ast.Inspect(ie.Index, func(z ast.Node) bool {
+							if x, ok := z.(*ast.Ident); ok && x.Name == t {
+								id = x
+							}
+							return true
+						})
+						if id == nil {
+							continue
+						}
+						d := fgx.LocalDef(info.Uses[id])
+						if d == nil {
+							// a helper expanded at two call sites defines the same object twice: take the definition that precedes
+							// this loop in its own statement list, if nothing re-assigns it in between
+							ast.Inspect(fn.Body(), func(z ast.Node) bool {
+								blk, ok := z.(*ast.BlockStmt)
+								if !ok {
+									return true
+								}
+								for bi, st := range blk.List {
+									if st != ast.Stmt(rs) {
+										continue
+									}
+									for bj := bi - 1; bj >= 0; bj-- {
+										as2, ok := blk.List[bj].(*ast.AssignStmt)
+										if !ok {
+											continue
+										}
+										for li, l := range as2.Lhs {
+											if lid, ok := l.(*ast.Ident); ok && info.ObjectOf(lid) == info.Uses[id] && li < len(as2.Rhs) && len(as2.Lhs) == len(as2.Rhs) {
+												if d == nil {
+													d = as2.Rhs[li]
+												}
+											}
+										}
+										if d != nil {
+											break
+										}
+									}
+								}
+								return true
+							})
+						}
+						if d == nil {
+							continue
+						}
+						dt, dk := linearForm(info, d)
+						delete(terms, t)
+						k += int64(coef) * dk
+						for t2, c2 := range dt {
+							terms[t2] += coef * c2
+							if terms[t2] == 0 {
+								delete(terms, t2)
+							}
+						}
+						changed = true
+					}
+					if !changed {
+						break
+					}
+				}
 				good := k == 1 && len(terms) == 2 && terms[base+".Offset"] == 1 && terms[keyName] == 1
 				c.Check(good, "R5", "prometheus|addExponentialHistogramMetric|"+side+" count i ↦ key Offset+i+1", at(px.M, as.Pos()), exprStr(ie.Index),
 					side+" counts are stored under "+exprStr(ie.Index)+", not Offset+i+1: every observation on that side is exposed in a neighbouring bucket")
